@@ -616,34 +616,46 @@ _add("C20", "compatible retypings are reported (compatibleRetypeSeverity re-extr
 
 
 # ---------------------------------------------------------------------------------------------------------------
-# State after the first builder wave (lexer / parser / spans): narrative of C01 and C02 brought up to the tree.
+# State after the second builder wave (lexer / parser / spans, continued): narrative of C01 and C02 as in the tree.
 # ---------------------------------------------------------------------------------------------------------------
 CHECKS["C01"].update({
     "text": ("MODELLED: Lex.lean (Lexer.__next__ and every _read_*, positions and error positions included; tables RE-EXTRACTED from lexer.py on every "
-             "run), Parse.lean / ParseExec / ParseTS / ParseDoc (every parse_* of lang/parser.py, many / any_ / delimited_list, the three flags, the "
-             "three entry points; keyword and location tables re-extracted from parser.py), ParseText.lean (Parser.__init__ + entry point = lexer then "
-             "parser, with the error of either), StringUtils.lean (index_to_loc, highlight_location). SPECIFICATION: Spec/Lexical.lean (June-2018 lexical "
-             "grammar as recognisers of complete lexemes + the tiling relation Tiles / IgnRun / Follow) and Spec/Grammar.lean (concrete-syntax views, WF, "
-             "Matches). PROVED, lexer: lex_sound and lex_render (= lexAll_ok_iff: a text is accepted exactly when it is tiled by ignored runs and complete "
-             "lexemes obeying maximal munch, and the tokens returned are the tiling's; ALL token kinds), lex_ignored_invariant, lex_fuel_sufficient, "
-             "render_total / index_to_loc_total_iff, the table-to-spec theorems. Parser: parse_sound_document, parse_complete_document, "
-             "parseDocument_accepts_iff, matched_document_unique (all 8 flag combinations; parseValue_* / parseType_* for the other two entry points). "
-             "TEXT level: parse_text_accepts_iff / parse_text_result, parse_value_text_result, parse_type_text_result (text accepted <=> tiled text whose "
-             "tokens derive from the grammar; the tree returned is the derivation). ERROR CLAUSE: parse_error_in_range, "
-             "parse_text_error_in_range_partial, parse_text_render_total, and a description of the one excluded class (L6): "
-             "error_in_range_or_truncated_escape / error_in_range_except_truncated_escape (a position beyond the end only for texts whose last characters "
-             "are a truncated escape; EndsInEscape over-approximates the class); refuted with witnesses: error_in_range_refuted (`\"\\`), viable_prefix_refuted (`extend scalar A`). "
-             "SPEC-EDITION READINGS isolated as named clauses of the lexical spec, each with a pinned theorem and a refutation of the literal June-2018 "
-             "reading: number look-ahead (LA1: number_lookahead_pinned / june2018_glued_number_refuted); greedy optional blocks (LA2) are the `nla` item of Spec/Grammar. CORRESPONDENCE: text -> tokens -> AST (whole "
-             "to_dict() incl. loc) for str and UTF-8 bytes on grammar-directed documents rendered with random ignored runs, token / character mutants, "
-             "every prefix, the repo fixtures, CR/LF/CRLF variants, bounded-exhaustive token strings x 8 flag combinations x 3 entry points; DIRECT ORACLES: "
-             "error contract (only GraphQLSyntaxError, 0 <= position <= len, str()/highlighted/to_dict() succeed), spec recognisers on single lexemes, "
-             "ignored-run invariance, bytes = str, named probes for LA1, LA2 and deep nesting."),
-    "note": ("Trusted: Lean kernel; table extraction; generators; the Python canonicaliser of Node.to_dict(). Only exercised (not modelled): UTF-8 decoding "
-             "of bytes sources (ensure_unicode, fix B8), the exception classes and messages, CPython's recursion limit (named probe, finding P1). Error "
-             "positions of rejected texts are proved in range but not compared one by one. Residuals: L6 (len+1, pinned by test_lexer.py; rendering "
-             "repaired), LA1, LA2 (readings of the June-2018 grammar pinned by the suite / needing backtracking; graphql-js agrees), P1."),
-    "technique": "Lean 4 proof (lexer soundness+completeness, grammar acceptance iff at text level, exact error-position class, tables) + extracted tables + text/token/AST correspondence",
+             "run), Utf8.lean / ParseBytes.lean (Lexer.__init__ on a bytes source: strict UTF-8 decoding, InvalidCharacter at the character offset of the "
+             "first undecodable sequence, fix B8), Parse.lean / ParseExec / ParseTS / ParseDoc (every parse_* of lang/parser.py, many / any_ / "
+             "delimited_list, the three flags, the three entry points; keyword and location tables re-extracted from parser.py), ParseText.lean "
+             "(Parser.__init__ + entry point = lexer then parser, with the error of either), StringUtils.lean (index_to_loc, highlight_location). "
+             "SPECIFICATION: Spec/Lexical.lean (June-2018 lexical grammar as recognisers of complete lexemes + the tiling relation Tiles / IgnRun / "
+             "Follow), Spec/LexicalReadings.lean (the clauses of Follow that are READINGS of June 2018, each under its own name) and Spec/Grammar.lean "
+             "(concrete-syntax views, WF, Matches). PROVED, lexer: lex_sound and lex_render (= lexAll_ok_iff: a text is accepted exactly when it is tiled "
+             "by ignored runs and complete lexemes obeying maximal munch and the named look-ahead clauses, and the tokens returned are the tiling's; ALL "
+             "token kinds), lex_ignored_invariant, lex_fuel_sufficient, render_total / index_to_loc_total_iff, the table-to-spec theorems; bytes: "
+             "decode_encode, parse_bytes_eq_text (parse(text.encode()) IS parse(text), all entry points and flags), decode_error_in_range, "
+             "parse_bytes_total. Parser: parse_sound_document, parse_complete_document, parseDocument_accepts_iff, matched_document_unique (all 8 flag "
+             "combinations; parseValue_* / parseType_* for the other two entry points). TEXT level: parse_text_accepts_iff / parse_text_result, "
+             "parse_value_text_result, parse_type_text_result. ERROR CLAUSE: parse_error_in_range, parse_text_error_in_range_partial, "
+             "parse_text_render_total, and the EXACT class of the one excluded case (L6), stated on the text with the lexical specification only: "
+             "error_position_iff_open_escape (a lexer error is at len+1 EXACTLY WHEN the text ends inside an open quoted string with a truncated escape: "
+             "OpenEscape = complete tokens and ignored runs, a quote, complete string characters, `\\` or `\\u` + at most 3 hex digits), open_escape_error, "
+             "error_in_range_iff, parse_text_error_in_range_iff (lexer and parser errors, all entry points), openEscape_endsInEscape + "
+             "endsInEscape_not_openEscape (the earlier EndsInEscape is a strict over-approximation: `a\\`); refuted with witnesses: error_in_range_refuted "
+             "(`\"\\`), viable_prefix_refuted (`extend scalar A`). SPEC-EDITION READINGS isolated as named clauses (follow_int_clauses / "
+             "follow_float_clauses / follow_string_clause: Follow is exactly maximal munch plus them), each with a theorem that the code implements it and "
+             "a refutation of the literal June-2018 reading: LA1 number look-ahead (number_lookahead_pinned / june2018_glued_number_refuted), LA3 three "
+             "quotes always open a block string (triple_quote_pinned, four_quotes_rejected / june2018_adjacent_strings_refuted), LA4 no digit after the "
+             "integer part 0 (leading_zero_pinned / june2018_split_number_refuted); LA2 (greedy optional blocks) is the `nla` item of Spec/Grammar. "
+             "CORRESPONDENCE: text -> tokens -> AST (whole to_dict() incl. loc) for str and UTF-8 bytes on grammar-directed documents rendered with "
+             "random ignored runs, token / character mutants, every prefix, the repo fixtures, CR/LF/CRLF variants, bounded-exhaustive token strings x 8 "
+             "flag combinations x 3 entry points; UTF-8 decoding (model vs Lexer.__init__ vs bytes.decode: text, reject, character offset). DIRECT "
+             "ORACLES: error contract (only GraphQLSyntaxError, 0 <= position <= len, str()/highlighted/to_dict() succeed), a position beyond the end "
+             "only for texts of the OpenEscape class (independent text-level scanner), spec recognisers on single lexemes, ignored-run invariance, "
+             "bytes = str, invalid UTF-8 rejected, named probes for LA1-LA4 and deep nesting."),
+    "note": ("Trusted: Lean kernel; table extraction; generators; the Python canonicaliser of Node.to_dict(). Only exercised (not modelled): the "
+             "U+FFFD-replaced text carried by the error for invalid UTF-8, the exception classes and messages, the lazy token window of Parser (for a text "
+             "with a lexical error AFTER a grammatical one the real parser reports the grammatical one, the composed model the lexical one: either way a "
+             "syntax error, positions in range), CPython's recursion limit (named probe, finding P1). Error positions of rejected texts are proved in "
+             "range but not compared one by one. Residuals: L6 (len+1, pinned by test_lexer.py; rendering repaired; exact class proved), LA1-LA4 (readings "
+             "of the June-2018 grammar pinned by the suite; graphql-js agrees), P1."),
+    "technique": "Lean 4 proof (lexer soundness+completeness, grammar acceptance iff at text level, exact error-position class, UTF-8 round trip, tables) + extracted tables + text/token/AST correspondence",
 })
 CHECKS["C02"].update({
     "text": ("MODELLED: the C01 lexer / parser model with loc (every node), BlockString.lean (parse_block_string), escape decoding in readStringBody "
@@ -655,13 +667,21 @@ CHECKS["C02"].update({
              "(the characters between two tokens lex to the tokens in between, moved down); span_reparse_value / span_reparse_type (parse_value / "
              "parse_type entry points, every nested node); for DOCUMENTS span_reparse_node (every node of every kind: the spanned text lexes and derives "
              "exactly the node at offset 0), span_reparse_value_all / span_reparse_type_all (every value / type node of every definition is what "
-             "parse_value / parse_type returns for its text), span_reparse_definition (the text of a definition parses to the one-definition document); "
-             "selection sets, fields, arguments, directives and descriptions have no entry point of their own and are covered by span_reparse_node at "
-             "grammar level. CORRESPONDENCE: decoded values and every node's loc "
-             "(through the C01 driver), parse_block_string directly; DIRECT ORACLE: source[loc] re-parses to an equal node with the Parser method that "
-             "produced it (incl. trailing children), block / quoted lexemes decode to the spec value, numbers and names verbatim, node.source slices."),
+             "parse_value / parse_type returns for its text), span_reparse_definition (the text of a definition parses to the one-definition document), and "
+             "THROUGH THE parse ENTRY POINT for the node kinds without one of their own, the spanned text wrapped in the minimal context (LF = line feed): "
+             "span_reparse_selection_set (the text itself is the query shorthand), span_reparse_selection (`{ <text>LF}`: fields, fragment spreads, "
+             "inline fragments), span_reparse_directive (`{ a <text>LF}`), span_reparse_argument (`{ a(<text>LF)}`), span_reparse_description "
+             "(`<text>LF scalar A`, flags with allow_type_system): parse accepts the wrapped text under the same flags and returns the document that "
+             "contains exactly the node, moved by the offset of the context; closed forms without side hypothesis for executable documents: "
+             "span_reparse_selection_all / _selection_set_all / _directive_all / _argument_all over Definition.sels / ssets / dirs / args (every such "
+             "node at any depth). CORRESPONDENCE: decoded values and every node's loc (through the C01 driver), parse_block_string directly; DIRECT "
+             "ORACLES: source[loc] re-parses to an equal node with the Parser method that produced it (incl. trailing children) AND, for these node "
+             "kinds, through the public parse() inside the same minimal context; block / quoted lexemes decode to the spec value, numbers and names "
+             "verbatim, node.source slices."),
     "note": ("Trusted: Lean kernel; generators; the lexer positions feeding the spans are covered by lex_sound (C01). Only exercised: Parser.parse_* "
-             "methods called directly on a slice (the oracle), the `source` attribute. Residual: P5 (the Document span runs from <SOF> to <EOF>, i.e. "
-             "includes surrounding ignored text; pinned by 15 tests; modelled as is). Repaired earlier: B1, B2, L4, P4, U1."),
-    "technique": "Lean 4 proof (block strings, escapes, spans for all documents, no_location erasure, character-level re-parse of every node) + decode/span correspondence + re-parse oracle",
+             "methods called directly on a slice (the first oracle), the `source` attribute; directives / arguments / descriptions of TYPE-SYSTEM "
+             "definitions are covered by the hypothesis forms (span_reparse_directive / _argument / _description with the sub-node premise) and the "
+             "oracle, not by a closed enumeration. Residual: P5 (the Document span runs from <SOF> to <EOF>, i.e. includes surrounding ignored text; "
+             "pinned by 15 tests; modelled as is). Repaired earlier: B1, B2, L4, P4, U1."),
+    "technique": "Lean 4 proof (block strings, escapes, spans for all documents, no_location erasure, character-level re-parse of every node, re-parse through parse() in minimal context) + decode/span correspondence + re-parse oracles",
 })
